@@ -1,7 +1,7 @@
 (** C20 — the configured-account-key mode ([ACMEIssuer.AccountKeyPEM]).  Executable model only.
 
     Read from account.go ([GetAccount], [loadAccountByKey], [loadAccount], [lookUpAccount],
-    [saveAccount]) and storage.go ([storeTx]) as they are now (after ec5c5dd):
+    [saveAccount]) and storage.go ([storeTx]) as they are now (after 55396a9):
 
       with e-mail:     Load key --match--> loadAccount = Load reg, Load key --ok--> done
       without e-mail:  List users --folder--> Load key --match--> loadAccount ...
